@@ -192,4 +192,182 @@ theorem entryRemove_excess (cs : List RNode) (X : RNode) (A : List LSeg) (s : LS
           exact absurd (hf _ _ hr') (by decide)
     unfold excess; omega
 
+/-! ### per operation -/
+
+theorem commas_insertAt (cs : List RNode) (k : Nat) (new : List RNode) :
+    commas (insertAt cs k new) = commas cs + commas new := by
+  have : commas cs = commas (cs.take k ++ cs.drop k) := by rw [List.take_append_drop]
+  rw [this]; simp only [insertAt, commas_append]; omega
+
+theorem items_insertAt (cs : List RNode) (k : Nat) (new : List RNode) :
+    items (insertAt cs k new) = items cs + items new := by
+  have : items cs = items (cs.take k ++ cs.drop k) := by rw [List.take_append_drop]
+  rw [this]; simp only [insertAt, items_append]; omega
+
+theorem item_of_entry {E : RNode} (h : isNodeOf .ENTRY E = true) : isItemNode E = true := by
+  simp only [isNodeOf, Bool.and_eq_true] at h
+  simp [isItemNode, h.1, h.2]
+
+theorem items_pos_of_mem (pre : List RNode) (x : RNode) (post : List RNode) (hx : isItemNode x = true) :
+    1 ≤ items (pre ++ x :: post) := by
+  rw [items_append, items_cons, hx]; simp; omega
+
+/-- what `Relations::insert` adds, and where -/
+theorem relationsInsert_shape (cs : List RNode) (i : Nat) (E : RNode) :
+    ∃ k new, (relationsInsert cs i E).kids = insertAt cs k new
+      ∧ (new = [E] ∨ new = [T .WHITESPACE " ", E]
+        ∨ (new = [E, T .COMMA ",", T .WHITESPACE " "] ∧ ∃ p, nthNode .ENTRY cs i = some p)
+        ∨ (new = [T .COMMA ",", T .WHITESPACE " ", E] ∧ ∃ p, lastPos isItemNode cs = some p)) := by
+  unfold relationsInsert
+  cases h1 : nthNode .ENTRY cs i with
+  | some pos => exact ⟨_, _, rfl, Or.inr (Or.inr (Or.inl ⟨rfl, _, rfl⟩))⟩
+  | none =>
+    cases h2 : lastPos isItemNode cs with
+    | none => exact ⟨_, _, rfl, Or.inl rfl⟩
+    | some last =>
+      simp only []
+      repeat' split
+      all_goals first
+        | exact ⟨_, _, rfl, Or.inl rfl⟩
+        | exact ⟨_, _, rfl, Or.inr (Or.inl rfl)⟩
+        | exact ⟨_, _, rfl, Or.inr (Or.inr (Or.inr ⟨rfl, _, rfl⟩))⟩
+
+/-- `Relations::insert(i, entry)` / `push(entry)` on ANY child list (no layout needed): one item more and
+    at most one comma more — exactly one when the field had an item and no trailing comma to reuse;
+    the commas beyond the separating ones do not become more -/
+theorem C11_insert_no_new_empty (cs : List RNode) (i : Nat) (E : RNode) (hE : isNodeOf .ENTRY E = true) :
+    items (relationsInsert cs i E).kids = items cs + 1
+    ∧ commas (relationsInsert cs i E).kids ≤ commas cs + 1
+    ∧ excess (relationsInsert cs i E).kids ≤ excess cs := by
+  have hi := item_of_entry hE
+  have hc := item_not_comma E hi
+  have k1 : commas [E, T .COMMA ",", T .WHITESPACE " "] = 1 := by
+    simp only [commas_cons, hc, commas_nil]; decide
+  have k2 : items [E, T .COMMA ",", T .WHITESPACE " "] = 1 := by
+    simp only [items_cons, hi, items_nil]; decide
+  have k3 : commas [T .COMMA ",", T .WHITESPACE " ", E] = 1 := by
+    simp only [commas_cons, hc, commas_nil]; decide
+  have k4 : items [T .COMMA ",", T .WHITESPACE " ", E] = 1 := by
+    simp only [items_cons, hi, items_nil]; decide
+  have k5 : commas [E] = 0 := by simp only [commas_cons, hc, commas_nil]; decide
+  have k6 : items [E] = 1 := by simp only [items_cons, hi, items_nil]; decide
+  have k7 : commas [T .WHITESPACE " ", E] = 0 := by simp only [commas_cons, hc, commas_nil]; decide
+  have k8 : items [T .WHITESPACE " ", E] = 1 := by simp only [items_cons, hi, items_nil]; decide
+  obtain ⟨k, new, hk, hcase⟩ := relationsInsert_shape cs i E
+  rw [hk]
+  simp only [commas_insertAt, items_insertAt, excess]
+  rcases hcase with rfl | rfl | ⟨rfl, pos, hp⟩ | ⟨rfl, last, hl⟩
+  · rw [k5, k6]; omega
+  · rw [k7, k8]; omega
+  · obtain ⟨pre, x, post, e, _, hx, _⟩ := nthPos_some hp
+    have := items_pos_of_mem pre x post (item_of_entry hx)
+    rw [← e] at this
+    rw [k1, k2]; omega
+  · obtain ⟨pre, x, post, e, _, hx, _⟩ := lastPos_some hl
+    have := items_pos_of_mem pre x post hx
+    rw [← e] at this
+    rw [k3, k4]; omega
+
+theorem C11_push_no_new_empty (f : Field) (E : RNode) (hE : isNodeOf .ENTRY E = true) :
+    excess (f.push E).kids ≤ excess f.kids :=
+  (C11_insert_no_new_empty f.kids _ E hE).2.2
+
+/-- `Relations::replace(i, entry)`: commas and items as before -/
+theorem C11_replace_no_new_empty (f f' : Field) (i : Nat) (E : RNode) (hE : isNodeOf .ENTRY E = true)
+    (h : f.replace i E = .ok f') : commas f'.kids = commas f.kids ∧ items f'.kids = items f.kids := by
+  unfold Field.replace at h
+  split at h
+  · cases h
+  · rename_i p hp
+    simp only [Outcome.ok.injEq] at h
+    subst h
+    obtain ⟨pre, x, post, e, hl, hx, _⟩ := nthPos_some hp
+    obtain ⟨t1, t2, _⟩ := take_drop_of_split pre x post
+    rw [← e, hl] at t1 t2
+    have hi := item_of_entry hE
+    have hxi := item_of_entry hx
+    simp only [Field.rootEdit, commas_insertAt, items_insertAt, t1, t2]
+    rw [e]
+    simp only [commas_append, items_append, commas_cons, items_cons, hi, hxi, item_not_comma E hi,
+      item_not_comma x hxi, commas_nil, items_nil]
+    simp; omega
+
+/-- `Entry::remove` / `Relations::remove_entry` on a layout: one item less; one comma less unless the
+    entry was the only item; the commas beyond the separating ones do not become more -/
+theorem C11_removeEntry_no_new_empty (f f' : Field) (hl : Lay f) (i p : Nat)
+    (hp : nthNode .ENTRY f.kids i = some p) (h : f.removeEntryAt p = .ok f') :
+    excess f'.kids ≤ excess f.kids := by
+  obtain ⟨l, hok, hk⟩ := hl
+  rw [hk] at hp
+  obtain ⟨A, s, B, e, e1, e2, e3, e4⟩ := nthEntry_lay l i p hp
+  have hcs : f.kids = (lkidsC A ++ tks (gapToks s.pre)) ++ e.node :: (tks (gapToks s.post) ++ restKids B) := by
+    rw [hk, e1, lkids_at_ent A s B e e2]
+  unfold Field.removeEntryAt at h
+  cases hc : entryRemove f.kids p with
+  | panic m => rw [hc] at h; cases h
+  | ok c =>
+    rw [hc] at h
+    simp only [Outcome.map, Outcome.ok.injEq] at h
+    subst h
+    rw [e4] at hc
+    exact entryRemove_excess f.kids e.node A s B hcs rfl c hc
+
+/-! ### one step (the calls that add or remove items at the root) -/
+
+/-- the calls that change the root's children other than inside one entry -/
+def rootOp : Op → Prop
+  | .insert _ _ | .push _ | .replace _ _ | .removeEntry _ | .removeEntryAt _ => True
+  | _ => False
+
+/-- PARTIAL (the calls that edit inside one entry — setters, `Entry::push` / `replace`,
+    `remove_relation` — are not covered here; they replace one ENTRY node by another, or, for the only
+    alternative, go through `Entry::remove`): no root-level call with valid operands on a layout makes
+    the number of commas beyond the separating ones larger -/
+theorem C11_lay_step_no_new_empty_partial (f f' : Field) (hl : Lay f) (op : Op) (hr : rootOp op)
+    (ho : op.layH f) (h : step f op = .ok f') : excess f'.kids ≤ excess f.kids := by
+  cases op with
+  | insert i e =>
+    simp only [step, Outcome.ok.injEq] at h; subst h
+    exact (C11_insert_no_new_empty f.kids i e (EntOperand.isEntry ho)).2.2
+  | push e =>
+    simp only [step, Outcome.ok.injEq] at h; subst h
+    exact C11_push_no_new_empty f e (EntOperand.isEntry ho)
+  | replace i e =>
+    simp only [step] at h
+    have := C11_replace_no_new_empty f f' i e (EntOperand.isEntry ho) h
+    unfold excess; omega
+  | removeEntry i =>
+    simp only [step] at h
+    unfold Field.removeEntry at h
+    split at h
+    · rename_i p hp
+      exact C11_removeEntry_no_new_empty f f' hl i p hp h
+    · cases h
+  | removeEntryAt p =>
+    simp only [step] at h
+    obtain ⟨i, hp⟩ := eok_addr ho
+    exact C11_removeEntry_no_new_empty f f' hl i p hp h
+  | _ => cases hr
+
+/-! ### non-vacuity: `a, , b` (one empty segment) and `a, b` (none) -/
+
+def exEnt (n : String) : LEnt := ⟨⟨lyRel n, []⟩, [], []⟩
+def exA : List LSeg := [⟨[], .ent (exEnt "a"), []⟩, ⟨[.ws [' ']], .none, []⟩, ⟨[.ws [' ']], .ent (exEnt "b"), []⟩]
+def exB : List LSeg := [⟨[], .ent (exEnt "a"), []⟩, ⟨[.ws [' ']], .ent (exEnt "b"), []⟩]
+def exFA : Field := ⟨lkids exA, [], []⟩
+def exFB : Field := ⟨lkids exB, [], []⟩
+
+example : Lay exFA := ⟨exA, by decide +kernel, rfl⟩
+example : Lay exFB := ⟨exB, by decide +kernel, rfl⟩
+example : exFA.root.text = "a, , b".toList ∧ empties exA = 1 ∧ excess exFA.kids = 1 := by decide +kernel
+example : exFB.root.text = "a, b".toList ∧ empties exB = 0 ∧ excess exFB.kids = 0 := by decide +kernel
+example : nthNode .ENTRY exFA.kids 1 = some 5 := by decide +kernel
+/-- the empty segment stays (it is not repaired), no further one appears: remove `b`, remove `a`, push `n` -/
+theorem C11_seps_witness :
+    (exFA.removeEntry 1).map (fun g => (g.root.text, excess g.kids)) = .ok ("a, ".toList, 1)
+    ∧ (exFA.removeEntry 0).map (fun g => (g.root.text, excess g.kids)) = .ok (", b".toList, 1)
+    ∧ (exFB.removeEntry 0).map (fun g => (g.root.text, excess g.kids)) = .ok ("b".toList, 0)
+    ∧ ((exFB.push (exEnt "n").node).root.text, excess (exFB.push (exEnt "n").node).kids) = ("a, b, n".toList, 0) := by
+  decide +kernel
+
 end Deb822Verif.Props.C11Seps
